@@ -54,12 +54,10 @@ print(f"{ID}-{var}: demo-clean={'PASS' if rc0==0 else 'FAIL'} build={'ok' if rcb
 if not ok:
     print((out0 if rc0 else "") + (outb if rcb else "") + (outs[-1500:] if rcs else "") )
     sys.exit(1)
-# run the checks against /repo with the change applied
-rc, out = sh("git diff --quiet", "/repo")
-if rc: print("/repo is dirty"); sys.exit(2)
-rc, out = sh(f"git apply {patch}", "/repo")
-if rc: print("patch does not apply to /repo", out); sys.exit(2)
+# run the checks against the scratch worktree with the change applied (VERIF_REPO_DIR), /repo is not touched
+sh(f"git apply {patch}", wt)
 results = {}
+env["VERIF_REPO_DIR"] = wt
 try:
     for ck in checks:
         t = time.time()
@@ -67,8 +65,11 @@ try:
         keys = re.findall(r"^  key=(\S+)", out, re.M)
         results[ck] = {"exit": rc, "keys": keys[:6], "wall_s": round(time.time() - t, 1)}
         print(f"  check {ck}: exit={rc} keys={keys[:4]}")
+        if rc == 2:
+            print("    " + out.strip().split("\n")[0][:300])
 finally:
-    sh("git checkout -- .", "/repo")
+    del env["VERIF_REPO_DIR"]
+    clean()
 meta["checks"] = results
 meta["caught_by"] = [k for k, v in results.items() if v["exit"] == 1]
 notes = open(f"{src}/notes.md").read() if os.path.exists(f"{src}/notes.md") else ""
